@@ -49,7 +49,7 @@ theorem ldrImm_agrees (w : BitVec 32) (addr : Nat) (r : BTR) (hc : fld w 29 27 =
     (s' : A64.St) (hs : A64.step w s = .ok s')
     (hnowrap : (immAddr w s).toNat + 1 <<< fld w 31 30 ≤ 2 ^ 64) :
     ∃ σ', runBTR r σ = .next σ' [s'.pc.toNat] ∧ Abs σ' s' := by
-  rw [lift_ldstImm w addr hc h25, ldstImm_load w addr h26 himm sg rs hdec] at h
+  rw [lift_ldstImm w addr hc h25 himm, ldstImm_load w addr h26 himm sg rs hdec] at h
   injection h with h; subst h
   rw [step_ldstSingle w s hc h25, ldstSingle_imm s w h26 himm .load sg rs hdec (by decide)] at hs
   have hsz : fld w 31 30 < 4 := fld_lt w 31 30
